@@ -1,5 +1,35 @@
 /-
-  C02GenFmaFrontSpec — what the front end of `bid128_ext_fma` (the stages of C02GenFmaFront) computes.
+  C02GenFmaFrontSpec — what the FRONT END of `bid128_ext_fma` (bid128_fma.rs lines 666–1775; the stages of
+  `C02GenFmaFront.lean`: `ext_fma_shape : bid128_ext_fma p1 p2 p3 p4 x y z m f = frontK x y z m f (caseLoop p1 p2 p3 p4)`)
+  computes, for ALL operands.  `dOf x = decode (bitsOf x)` (C01GenMul.dOf): non-canonical finite patterns are zeros.
+
+  (1) THE HAND-OVERS.
+      `front_spec`   three numbers, `c1·c2 ≠ 0`, `c3 ≠ 0`: nothing is answered in the front; `bid128_ext_fma … = caseLoop … zs ps
+                     ze pe C3 C4 q3 q4 e3w e4w tmp` with `Handover`: sign words `sgnW s3`, `sgnW (s1 != s2)`, `v128 C3 = c3`,
+                     `v256 C4 = c1·c2` (the EXACT product), `q3 = ndigits c3`, `q4 = ndigits (c1·c2)`, `e3w = e3`,
+                     `e4w = e1 + e2`, the exponent FIELDS in place (`ze = (e3+6176)·2^49`, `pe = max (e1+e2+6176) 0 · 2^49`, not
+                     clamped above), and the operands' ranges — the entry hypotheses of `C02GenFmaSwap.case7_spec_vars` etc.
+      `front_z0`     `x·y + (±0)`, `c1·c2 ≠ 0`, `z` a zero (canonical or not): `bid128_ext_fma … = z0K C3 C4 q4 e3w e4w ze ps m f k`
+                     with `Z0Handover` (for C02GenFmaZ0.lean; the status word is handed over untouched).
+  (2) THE CASES ANSWERED IN THE FRONT, each `= fmaD` (result word = canonical encoding of `fmaD`'s datum, the four indicators
+      `false`, status word = `f ||| fmaD's flags`):
+      NaN operands   `C12GenNaN.ext_fma_nan` (the NaN rule);
+      `front_inf`        some operand infinite, no NaN: `∞·0` invalid, `∞ + (−∞)` invalid, else the infinity of the product or of
+                         the addend (`infK_eval`: the decision tree of the source = `infDecide`; `fmaD_inf`: the model's);
+      `front_zero_zero`  product zero and addend zero: the zero at `min (e1+e2, e3)` clamped into the range, sign by the IEEE rule
+                         (`−` iff both negative, or signs differ and the mode is `Downward`);
+      `front_prod_zero`  product zero, addend not: the addend with `min (34 − q3, e3 − max (e1+e2, −6176))` zeros appended
+                         (none if `e3 ≤ e1+e2`), no flag (`prodZeroK_eval`; model: `fmaD_prod_zero` via `finish_exact'`, the
+                         universal rounding step on a member of the format with a preferred exponent possibly below the range).
+  Stage lemmas: `nanK_skip`, `unpackK_eval`, `fin_unpack` (sign word, exponent field, coefficient VALUE of a finite operand),
+  `infK_skip` / `infK_eval`, `zeroK_skip` / `zeroK_zero`, `pExpW_val`, `digitsK_zero` / `digitsK_spec` / `digitsK_any`
+  (the f64 bit-length trick + `BID_NR_DIGITS` = `ndigits`), `prodZeroK_skip` / `prodZeroK_eval`, `productK_spec` (the exact
+  256-bit product and its digit count on all eight multiplication paths: one word; 64×64; 128×64 (two ways); 128×128 at 39
+  digits; 64×128 full (two ways) / 128×128 up to 57 digits; 58 digits; up to 68 digits — each with its word-wise comparison
+  against `BID_TEN2K64/128/256`), `z0K_skip`, `unbias`.
+  (3) (the `z = 0` path `z0K` = `mulD`, the `bid128_mul` headline) is C02GenFmaZ0.lean (strFormat).
+  Findings: none — on everything above the code is `fmaD`.  No `sorry`; axioms: the three standard ones.
+  (The clean start of this file — `nanK_skip` … `digitsK_zero` — is genNext's.)
 -/
 import DecProofs.Properties.C02GenFmaFront
 import DecProofs.Properties.C02GenFmaSwap
@@ -1300,5 +1330,591 @@ theorem front_zero_zero (p1 p2 p3 p4 : Bool) (x y z : U128) (m : RoundingMode) (
     · rw [if_neg hd]
       have : (Dec.C02GenCorrection.modeOf m == Mode.rdn) = false := by simpa using hd
       rw [this, hmin]; simp
+
+
+/-! ## 10. The special cases answered in the front: zero product, non-zero addend -/
+
+/-- the universal rounding step on a member of the format, preferred exponent possibly below the range: with
+`N = M·10^(X−m)`, `M·10^X` a member, and `X` the exponent closest to `m` from above — `X = m`, or `M` cannot be padded, or
+`X` is the least exponent — `finish` delivers `M·10^X` without a flag -/
+theorem finish_exact' (mode : Mode) (neg : Bool) (N : Nat) (m : Int) (hN : 0 < N) (M : Nat) (X : Int) (hX : m ≤ X)
+    (hval : M * 10 ^ (X - m).toNat = N) (hrep : Representable M X) (hclose : X = m ∨ P34 ≤ M * 10 ∨ X = eMin) :
+    finish mode neg N 1 m m = (.fin neg M X, 0) := by
+  rw [finish_eq_iff mode neg N 1 m m hN (by norm_num)]
+  left
+  have ten_ne : (10 : ℚ) ≠ 0 := by norm_num
+  have hv : fval false M X = (N : ℚ) / ((1 : Nat) : ℚ) * (10 : ℚ) ^ m := by
+    rw [fval_false, ← hval]
+    push_cast
+    rw [div_one, mul_assoc, ← zpow_natCast, ← zpow_add₀ ten_ne]
+    congr 2
+    omega
+  refine ⟨⟨M, X, hrep, hv⟩, M, X, rfl, hv, hrep, ?_⟩
+  intro m' x' hr' hv'
+  rcases hclose with h | h | h
+  · rw [h, sub_self, abs_zero]; exact abs_nonneg _
+  · by_cases hx : X ≤ x'
+    · rw [abs_of_nonneg (by omega), abs_of_nonneg (by omega)]; omega
+    · exfalso
+      rw [← hv, fval_false, fval_false] at hv'
+      have hk : X = x' + ((X - x').toNat : Int) := by omega
+      rw [hk, zpow_add₀ ten_ne, zpow_natCast] at hv'
+      have h10 : (10 : ℚ) ^ x' ≠ 0 := zpow_ne_zero _ ten_ne
+      have e1 : (m' : ℚ) = (M : ℚ) * (10 : ℚ) ^ (X - x').toNat := by
+        have : (m' : ℚ) * (10 : ℚ) ^ x' = ((M : ℚ) * (10 : ℚ) ^ (X - x').toNat) * (10 : ℚ) ^ x' := by rw [hv']; ring
+        exact mul_right_cancel₀ h10 this
+      have e2 : m' = M * 10 ^ (X - x').toNat := by exact_mod_cast e1
+      obtain ⟨k, hk'⟩ : ∃ k, (X - x').toNat = k + 1 := ⟨(X - x').toNat - 1, by omega⟩
+      rw [hk', Nat.pow_succ] at e2
+      have : M * 10 ≤ m' := by
+        rw [e2, Nat.mul_comm (10 ^ k) 10, ← Nat.mul_assoc]
+        exact Nat.le_mul_of_pos_right _ (Nat.pow_pos (by decide))
+      have := hr'.1
+      omega
+  · have hx : X ≤ x' := by rw [h]; exact hr'.2.1
+    rw [abs_of_nonneg (by omega), abs_of_nonneg (by omega)]; omega
+
+theorem addFin_zero_left' (mode : Mode) (s1 : Bool) (e1 : Int) (s2 : Bool) (c2 : Nat) (e2 pref : Int) (hc2 : 0 < c2) :
+    addFin mode s1 0 e1 s2 c2 e2 pref =
+      finish mode s2 (c2 * 10 ^ (e2 - (if e1 ≤ e2 then e1 else e2)).toNat) 1 (if e1 ≤ e2 then e1 else e2) pref := by
+  have hp : 0 < c2 * 10 ^ (e2 - (if e1 ≤ e2 then e1 else e2)).toNat := Nat.mul_pos hc2 (Nat.pow_pos (by decide))
+  unfold addFin sInt
+  simp only [Nat.zero_mul, Nat.cast_zero, neg_zero, ite_self, zero_add]
+  generalize c2 * 10 ^ (e2 - (if e1 ≤ e2 then e1 else e2)).toNat = N at *
+  cases s2
+  · simp only [Bool.false_eq_true, if_false]
+    rw [if_neg (by omega)]
+    congr 1
+  · simp only [if_true]
+    rw [if_neg (by omega)]
+    have : decide (-(N : Int) < 0) = true := by simpa using hp
+    rw [this]
+    congr 1
+    omega
+
+/-- **the model on a zero product and a non-zero addend**: the addend with its coefficient padded by
+`scale = min (34 − q3, e3 − max (pe, −6176))` zeros (none if `e3 ≤ pe`), no flag -/
+theorem fmaD_prod_zero (mode : Mode) (ps s3 : Bool) (pe : Int) (c3 : Nat) (e3 : Int) (h0 : 0 < c3) (hc : c3 < 10^34)
+    (h1 : -6176 ≤ e3) (h2 : e3 ≤ 6111) (scale : Nat)
+    (hs : scale = if e3 ≤ pe then 0 else min (34 - ndigits c3) (e3 - max pe (-6176)).toNat) :
+    addFin mode ps 0 pe s3 c3 e3 (if pe ≤ e3 then pe else e3) = (.fin s3 (c3 * 10 ^ scale) (e3 - scale), 0) := by
+  rw [addFin_zero_left' mode ps pe s3 c3 e3 _ h0]
+  obtain ⟨a1, a2⟩ := ndigits_spec h0
+  have nq : ndigits c3 ≤ 34 := (ndigits_le_iff h0).2 hc
+  have nq0 := ndigits_pos h0
+  by_cases hle : e3 ≤ pe
+  · rw [if_pos hle] at hs
+    subst hs
+    have hm : (if pe ≤ e3 then pe else e3) = e3 := by split <;> omega
+    rw [hm]
+    simp only [Int.sub_self, Int.toNat_zero, Nat.pow_zero, Nat.mul_one, Nat.cast_zero, Int.sub_zero]
+    exact finish_exact' mode s3 c3 e3 h0 c3 e3 (le_refl _) (by simp) ⟨by unfold P34; exact hc, by unfold eMin; omega,
+      by unfold eMax; omega⟩ (Or.inl rfl)
+  · rw [if_neg hle] at hs
+    have hm : (if pe ≤ e3 then pe else e3) = pe := by split <;> omega
+    rw [hm]
+    have hsc1 : scale ≤ 34 - ndigits c3 := by omega
+    have hsc2 : (scale : Int) ≤ e3 - max pe (-6176) := by omega
+    have hM : c3 * 10 ^ scale < 10 ^ 34 := by
+      calc c3 * 10 ^ scale < 10 ^ ndigits c3 * 10 ^ scale := Nat.mul_lt_mul_of_pos_right a2 (Nat.pow_pos (by decide))
+        _ = 10 ^ (ndigits c3 + scale) := (Nat.pow_add _ _ _).symm
+        _ ≤ 10 ^ 34 := Nat.pow_le_pow_right (by decide) (by omega)
+    refine finish_exact' mode s3 _ pe (Nat.mul_pos h0 (Nat.pow_pos (by decide))) (c3 * 10 ^ scale) (e3 - scale) (by omega) ?_
+      ⟨by unfold P34; exact hM, by unfold eMin; omega, by unfold eMax; omega⟩ ?_
+    · rw [Nat.mul_assoc, ← Nat.pow_add]
+      congr 2
+      omega
+    · by_cases hk : scale = 34 - ndigits c3
+      · right; left
+        unfold P34
+        have : 10 ^ (ndigits c3 - 1) * 10 ^ scale ≤ c3 * 10 ^ scale := Nat.mul_le_mul_right _ a1
+        rw [← Nat.pow_add, show ndigits c3 - 1 + scale = 33 from by omega] at this
+        omega
+      · have : (scale : Int) = e3 - max pe (-6176) := by omega
+        by_cases hp : -6176 ≤ pe
+        · left; omega
+        · right; right; unfold eMin; omega
+
+
+/-- the three fields of a result word laid side by side -/
+theorem pack_fields (r1 zs fe : UInt64) (hr : r1.toNat < 2^49) (s : Bool) (hzs : zs = sgnW s) (F : Nat) (hF : F < 2^14)
+    (hfe : fe.toNat = F * 2^49) : (r1 ||| (zs ||| fe)).toNat = (if s then 2^63 else 0) + F * 2^49 + r1.toNat := by
+  have hfe63 : fe.toNat < 2^63 := by
+    rw [hfe]
+    calc F * 2^49 < 2^14 * 2^49 := Nat.mul_lt_mul_of_pos_right hF (by decide)
+      _ = 2^63 := by norm_num
+  have h1 : (zs ||| fe).toNat = (if s then 2^63 else 0) + F * 2^49 := by
+    rw [UInt64.or_comm, hzs, or_sgnW _ _ hfe63, hfe]
+  rw [UInt64.toNat_or, h1, Nat.or_comm]
+  have hdis : ((if s then 2^63 else 0) + F * 2^49) = ((if s then 2^14 else 0) + F) * 2^49 := by
+    cases s <;> simp; ring
+  rw [hdis, Dec.C06GenFromInt.or_disjoint _ _ 49 hr]
+
+/-- a finite result word is the canonical encoding of its fields -/
+theorem fin_word_enc (R : U128) (W : UInt64) (s : Bool) (F : Nat) (hF : F < 2^14)
+    (hW : W.toNat = (if s then 2^63 else 0) + F * 2^49 + R.w1.toNat) (hR : R.w1.toNat < 2^49) :
+    (⟨R.w0, W⟩ : U128) = ofBits (encode (.fin s (v128 R) ((F : Int) - 6176))) := by
+  apply Dec.C06GenFromInt.eq_ofBits
+  unfold Dec.C06GenFromInt.bitsOf
+  show W.toNat * 2^64 + R.w0.toNat = signBit s + ((F : Int) - 6176 + 6176).toNat * 2^113 + v128 R
+  rw [hW, show ((F : Int) - 6176 + 6176).toNat = F from by omega]
+  unfold signBit v128
+  cases s <;> simp <;> ring
+
+
+theorem mask_exp_id (w : UInt64) (F : Nat) (hw : w.toNat = F * 2^49) (hF : F < 2^14) : w &&& c_MASK_EXP = w := by
+  rw [← UInt64.toNat_inj, toNat_and_field _ c_MASK_EXP 14 49 (by decide), hw, Nat.mul_div_cancel _ (by decide),
+    Nat.mod_eq_of_lt hF]
+
+/-- the common end of the branches of `prodZeroK`: the exponent field moved down by `scale`, the fields packed -/
+theorem pz_finish (R : U128) (ze zs : UInt64) (SC : Int32) (scale E3 : Nat) (s3 : Bool) (hzs : zs = sgnW s3)
+    (hze : ze.toNat = E3 * 2^49) (hE3 : E3 < 2^14) (hSC : SC.toInt = scale) (hsE : scale ≤ E3) (hR34 : v128 R < 10^34)
+    (f : UInt32) :
+    (Except.ok ((⟨R.w0, R.w1 ||| (zs ||| (ze - (UInt64.ofInt (toI SC)) <<< 49) &&& c_MASK_EXP)⟩ : U128), false, false, false,
+      false, f) : Except String Out)
+      = .ok (ofBits (encode (.fin s3 (v128 R) ((E3 : Int) - 6176 - scale))), false, false, false, false, f) := by
+  refine congrArg (fun p : U128 => Except.ok (p, false, false, false, false, f)) ?_
+  have hw1 : R.w1.toNat < 2^49 := by
+    have : (10:Nat)^34 < 2^113 := by norm_num
+    unfold v128 at hR34; omega
+  have hsh : ((UInt64.ofInt (toI SC)) <<< 49).toNat = scale * 2^49 := by
+    rw [UInt64.toNat_shiftLeft, show (49 : UInt64).toNat % 64 = 49 from by decide, Nat.shiftLeft_eq,
+      Dec.C13GenPack.ofInt_nonneg _ (by rw [hSC]; omega), hSC, Int.toNat_natCast, Nat.mod_eq_of_lt]
+    calc scale * 2^49 < 2^14 * 2^49 := Nat.mul_lt_mul_of_pos_right (by omega) (by decide)
+      _ < 2^64 := by norm_num
+  have hze' : (ze - (UInt64.ofInt (toI SC)) <<< 49).toNat = (E3 - scale) * 2^49 := by
+    have hle : scale * 2^49 ≤ E3 * 2^49 := Nat.mul_le_mul_right _ hsE
+    have hlt : E3 * 2^49 < 2^64 := by
+      calc E3 * 2^49 < 2^14 * 2^49 := Nat.mul_lt_mul_of_pos_right hE3 (by decide)
+        _ < 2^64 := by norm_num
+    rw [UInt64.toNat_sub, hsh, hze, Nat.sub_mul]
+    omega
+  have hF : E3 - scale < 2^14 := by omega
+  rw [show ((E3 : Int) - 6176 - scale) = ((E3 - scale : Nat) : Int) - 6176 from by omega]
+  refine fin_word_enc R _ s3 (E3 - scale) hF ?_ hw1
+  rw [mask_exp_id _ (E3 - scale) hze' hF, pack_fields R.w1 zs _ hw1 s3 hzs (E3 - scale) hF hze']
+
+set_option maxHeartbeats 2000000 in
+/-- **the stage "zero product, non-zero addend"**: the addend with `scale` zeros appended to its coefficient — none if its
+exponent is not above the product's, else as many as the gap to the product's exponent (clamped at the least exponent) and
+34 digits allow; status word untouched -/
+theorem prodZeroK_eval (z C1 C2 C3 : U128) (ze pe zs : UInt64) (q3 : Int32) (f : UInt32) (k : Except String Out)
+    (hz12 : (isZ C1 || isZ C2) = true) (E3 PE : Nat) (hze : ze.toNat = E3 * 2^49) (hpe : pe.toNat = PE * 2^49)
+    (hE3 : E3 < 2^14) (hPE : PE < 2^15) (c3pos : 0 < v128 C3) (c3lt : v128 C3 < 10^34)
+    (hq3 : q3.toInt = (ndigits (v128 C3) : Nat)) (s3 : Bool) (hzs : zs = sgnW s3)
+    (hzw : z.w0 = C3.w0 ∧ z.w1 = C3.w1 ||| (zs ||| ze)) (scale : Nat)
+    (hsc : scale = if E3 ≤ PE then 0 else min (34 - ndigits (v128 C3)) (E3 - PE)) :
+    prodZeroK z C1 C2 C3 ze pe zs q3 f k =
+      .ok (ofBits (encode (.fin s3 (v128 C3 * 10 ^ scale) ((E3 : Int) - 6176 - scale))), false, false, false, false, f) := by
+  obtain ⟨c3, hc3⟩ : ∃ c3, c3 = v128 C3 := ⟨_, rfl⟩
+  rw [← hc3] at c3pos c3lt hq3 hsc ⊢
+  obtain ⟨a1, a2⟩ := ndigits_spec c3pos
+  have nq : ndigits c3 ≤ 34 := (ndigits_le_iff c3pos).2 c3lt
+  have nq0 := ndigits_pos c3pos
+  have hw1 : C3.w1.toNat < 2^49 := by
+    have : v128 C3 < 2^113 := by rw [← hc3]; have : (10:Nat)^34 < 2^113 := by norm_num
+                                 omega
+    unfold v128 at this; omega
+  have hle : decide (ze ≤ pe) = decide (E3 ≤ PE) := by
+    rw [decide_eq_decide, UInt64.le_iff_toNat_le, hze, hpe]
+    constructor
+    · intro h; by_contra hn
+      have : (PE + 1) * 2^49 ≤ E3 * 2^49 := Nat.mul_le_mul_right _ (by omega)
+      rw [Nat.add_mul] at this; omega
+    · intro h; exact Nat.mul_le_mul_right _ h
+  unfold prodZeroK
+  take_pos
+  · rw [← hz12]; unfold isZ; rfl
+  by_cases c0 : E3 ≤ PE
+  · rw [if_pos c0] at hsc; subst hsc
+    take_pos
+    · rw [hle]; simpa using c0
+    head_step
+    simp only [Nat.pow_zero, Nat.mul_one, Nat.cast_zero, Int.sub_zero]
+    refine congrArg (fun p : U128 => Except.ok (p, false, false, false, false, f)) ?_
+    rw [hc3]
+    refine fin_word_enc C3 _ s3 E3 hE3 ?_ hw1
+    rw [mask_exp_id ze E3 hze hE3, UInt64.or_comm, pack_fields C3.w1 zs ze hw1 s3 hzs E3 hE3 hze]
+  · rw [if_neg c0] at hsc
+    take_neg
+    · rw [hle]; simpa using c0
+    have hgap : (ze - pe).toNat = (E3 - PE) * 2^49 := by
+      have hle' : PE * 2^49 ≤ E3 * 2^49 := Nat.mul_le_mul_right _ (by omega)
+      have hlt : E3 * 2^49 < 2^64 := by
+        calc E3 * 2^49 < 2^14 * 2^49 := Nat.mul_lt_mul_of_pos_right hE3 (by decide)
+          _ < 2^64 := by norm_num
+      rw [UInt64.toNat_sub, hze, hpe, Nat.sub_mul]; omega
+    have hind : (Int32.ofInt (toI ((ze - pe) >>> 49))).toInt = ((E3 - PE : Nat) : Int) := by
+      show (Int32.ofInt ((((ze - pe) >>> 49).toNat : Nat) : Int)).toInt = _
+      rw [shr49_field _ _ hgap, Int32.toInt_ofInt, show Int32.size = 2^32 from rfl, bmod32 (by omega) (by omega)]
+    have hp34 : (c_P34 - q3).toInt = ((34 - ndigits c3 : Nat) : Int) := by
+      rw [Int32.toInt_sub, hq3, show c_P34.toInt = 34 from by decide, bmod32 (by omega) (by omega)]; omega
+    by_cases cI : E3 - PE < 34 - ndigits c3
+    · take_pos
+      · rw [decide_eq_true_eq, Int32.lt_iff_toInt_lt, hind, hp34]; omega
+      head_step
+      generalize hSCg : Int32.ofInt (toI ((ze - pe) >>> 49)) = SC
+      have hSC : SC.toInt = scale := by rw [← hSCg]; rw [hind]; omega
+      have hsE : scale ≤ E3 := by omega
+      have hM34 : c3 * 10 ^ scale < 10 ^ 34 := by
+        calc c3 * 10 ^ scale < 10 ^ ndigits c3 * 10 ^ scale := Nat.mul_lt_mul_of_pos_right a2 (Nat.pow_pos (by decide))
+          _ = 10 ^ (ndigits c3 + scale) := (Nat.pow_add _ _ _).symm
+          _ ≤ 10 ^ 34 := Nat.pow_le_pow_right (by decide) (by omega)
+      have h128 : (10:Nat)^34 < 2^128 := by norm_num
+      by_cases s0 : scale = 0
+      · take_pos
+        · rw [i32_beq_lit _ _ hSC 0 0 (by decide)]; simpa using s0
+        head_step
+        rw [hzw.1, hzw.2]
+        have hze0 : ze - (UInt64.ofInt (toI SC)) <<< 49 = ze := by
+          rw [← UInt64.toNat_inj, UInt64.toNat_sub, UInt64.toNat_shiftLeft, show (49 : UInt64).toNat % 64 = 49 from by decide,
+            Nat.shiftLeft_eq, Dec.C13GenPack.ofInt_nonneg _ (by rw [hSC]; omega), hSC, s0]
+          have := ze.toNat_lt
+          simp
+        have habs : C3.w1 ||| (zs ||| ze) ||| (zs ||| ze &&& c_MASK_EXP) = C3.w1 ||| (zs ||| ze &&& c_MASK_EXP) := by
+          rw [mask_exp_id ze E3 hze hE3, UInt64.or_assoc, UInt64.or_self]
+        show Except.ok ((⟨C3.w0, C3.w1 ||| (zs ||| ze) ||| (zs ||| (ze - (UInt64.ofInt (toI SC)) <<< 49) &&& c_MASK_EXP)⟩ : U128),
+          false, false, false, false, f) = _
+        rw [hze0, habs, ← hze0]
+        have := pz_finish C3 ze zs SC scale E3 s3 hzs hze hE3 hSC hsE (by rw [← hc3]; exact c3lt) f
+        rw [this, ← hc3, s0]
+        simp
+      · take_neg
+        · rw [i32_beq_lit _ _ hSC 0 0 (by decide)]; simpa using s0
+        by_cases cq : ndigits c3 ≤ 19
+        · take_pos
+          · rw [i32_le_lit _ _ hq3 19 19 (by decide)]; simpa using cq
+          have w3 := v128_w0 C3 (by rw [← hc3]; have : (10:Nat)^(ndigits c3) ≤ 10^19 := Nat.pow_le_pow_right (by decide) cq
+                                    omega)
+          rw [← hc3] at w3
+          by_cases cs : scale ≤ 19
+          · take_pos
+            · rw [i32_le_lit _ _ hSC 19 19 (by decide)]; simpa using cs
+            take_call (show tbl64 Dec.Gen.BID_TEN2K64 (UInt64.ofInt (toI SC)) = .ok (UInt64.ofNat (10 ^ scale)) by
+              rw [idx_of _ _ hSC]; exact ten2k64_get _ (by omega))
+            obtain ⟨R, hm, hR⟩ := Dec.C01GenArith.gen_mul_64x64_to_128MACH C3.w0 (UInt64.ofNat (10 ^ scale))
+            take_call hm
+            head_step
+            have hp : (UInt64.ofNat (10 ^ scale)).toNat = 10 ^ scale := by
+              rw [UInt64.toNat_ofNat', Nat.mod_eq_of_lt]
+              have : (10:Nat)^scale ≤ 10^19 := Nat.pow_le_pow_right (by decide) cs
+              omega
+            have hRv : v128 R = c3 * 10 ^ scale := by rw [← w3.1, ← hp]; exact hR
+            have := pz_finish R ze zs SC scale E3 s3 hzs hze hE3 hSC hsE (by rw [hRv]; exact hM34) f
+            rw [hRv] at this
+            exact this
+          · take_neg
+            · rw [i32_le_lit _ _ hSC 19 19 (by decide)]; simpa using cs
+            have hs20 : (SC - 20).toInt = (scale - 20 : Nat) := i32_sub_small _ _ 20 hSC (by omega) 20 (by decide) (by omega)
+            take_call (show tbl128 Dec.Gen.BID_TEN2K128 (UInt64.ofInt (toI (SC - 20))) = .ok (mk128 (10 ^ (scale - 20 + 20))) by
+              rw [idx_of _ _ hs20]; exact ten2k128_get _ (by omega))
+            have hT : (mk128 (10 ^ (scale - 20 + 20))).toNat' = 10 ^ scale := by
+              rw [show scale - 20 + 20 = scale from by omega]
+              apply mk128_val
+              have : (10:Nat)^scale ≤ 10^33 := Nat.pow_le_pow_right (by decide) (by omega)
+              omega
+            obtain ⟨R, hm, hR⟩ := Dec.C01GenArith.gen_mul_128x64_to_128_exact C3.w0 (mk128 (10 ^ (scale - 20 + 20))) (by
+              rw [hT, w3.1]; omega)
+            take_call hm
+            head_step
+            have hRv : v128 R = c3 * 10 ^ scale := by rw [← w3.1, ← hT]; exact hR
+            have := pz_finish R ze zs SC scale E3 s3 hzs hze hE3 hSC hsE (by rw [hRv]; exact hM34) f
+            rw [hRv] at this
+            exact this
+        · take_neg
+          · rw [i32_le_lit _ _ hq3 19 19 (by decide)]; simpa using cq
+          take_call (show tbl64 Dec.Gen.BID_TEN2K64 (UInt64.ofInt (toI SC)) = .ok (UInt64.ofNat (10 ^ scale)) by
+            rw [idx_of _ _ hSC]; exact ten2k64_get _ (by omega))
+          have hp : (UInt64.ofNat (10 ^ scale)).toNat = 10 ^ scale := by
+            rw [UInt64.toNat_ofNat', Nat.mod_eq_of_lt]
+            have : (10:Nat)^scale ≤ 10^14 := Nat.pow_le_pow_right (by decide) (by omega)
+            omega
+          obtain ⟨R, hm, hR⟩ := Dec.C01GenArith.gen_mul_128x64_to_128_exact (UInt64.ofNat (10 ^ scale)) C3 (by
+            rw [hp]; show 10 ^ scale * v128 C3 < _; rw [← hc3, Nat.mul_comm]; omega)
+          take_call hm
+          head_step
+          have hRv : v128 R = c3 * 10 ^ scale := by rw [Nat.mul_comm, ← hp, hc3]; exact hR
+          have := pz_finish R ze zs SC scale E3 s3 hzs hze hE3 hSC hsE (by rw [hRv]; exact hM34) f
+          rw [hRv] at this
+          exact this
+
+    · take_neg
+      · rw [decide_eq_true_eq, Int32.lt_iff_toInt_lt, hind, hp34]; omega
+      head_step
+      generalize hSCg : c_P34 - q3 = SC
+      have hSC : SC.toInt = scale := by rw [← hSCg]; rw [hp34]; omega
+      have hsE : scale ≤ E3 := by omega
+      have hM34 : c3 * 10 ^ scale < 10 ^ 34 := by
+        calc c3 * 10 ^ scale < 10 ^ ndigits c3 * 10 ^ scale := Nat.mul_lt_mul_of_pos_right a2 (Nat.pow_pos (by decide))
+          _ = 10 ^ (ndigits c3 + scale) := (Nat.pow_add _ _ _).symm
+          _ ≤ 10 ^ 34 := Nat.pow_le_pow_right (by decide) (by omega)
+      have h128 : (10:Nat)^34 < 2^128 := by norm_num
+      by_cases s0 : scale = 0
+      · take_pos
+        · rw [i32_beq_lit _ _ hSC 0 0 (by decide)]; simpa using s0
+        head_step
+        rw [hzw.1, hzw.2]
+        have hze0 : ze - (UInt64.ofInt (toI SC)) <<< 49 = ze := by
+          rw [← UInt64.toNat_inj, UInt64.toNat_sub, UInt64.toNat_shiftLeft, show (49 : UInt64).toNat % 64 = 49 from by decide,
+            Nat.shiftLeft_eq, Dec.C13GenPack.ofInt_nonneg _ (by rw [hSC]; omega), hSC, s0]
+          have := ze.toNat_lt
+          simp
+        have habs : C3.w1 ||| (zs ||| ze) ||| (zs ||| ze &&& c_MASK_EXP) = C3.w1 ||| (zs ||| ze &&& c_MASK_EXP) := by
+          rw [mask_exp_id ze E3 hze hE3, UInt64.or_assoc, UInt64.or_self]
+        show Except.ok ((⟨C3.w0, C3.w1 ||| (zs ||| ze) ||| (zs ||| (ze - (UInt64.ofInt (toI SC)) <<< 49) &&& c_MASK_EXP)⟩ : U128),
+          false, false, false, false, f) = _
+        rw [hze0, habs, ← hze0]
+        have := pz_finish C3 ze zs SC scale E3 s3 hzs hze hE3 hSC hsE (by rw [← hc3]; exact c3lt) f
+        rw [this, ← hc3, s0]
+        simp
+      · take_neg
+        · rw [i32_beq_lit _ _ hSC 0 0 (by decide)]; simpa using s0
+        by_cases cq : ndigits c3 ≤ 19
+        · take_pos
+          · rw [i32_le_lit _ _ hq3 19 19 (by decide)]; simpa using cq
+          have w3 := v128_w0 C3 (by rw [← hc3]; have : (10:Nat)^(ndigits c3) ≤ 10^19 := Nat.pow_le_pow_right (by decide) cq
+                                    omega)
+          rw [← hc3] at w3
+          by_cases cs : scale ≤ 19
+          · take_pos
+            · rw [i32_le_lit _ _ hSC 19 19 (by decide)]; simpa using cs
+            take_call (show tbl64 Dec.Gen.BID_TEN2K64 (UInt64.ofInt (toI SC)) = .ok (UInt64.ofNat (10 ^ scale)) by
+              rw [idx_of _ _ hSC]; exact ten2k64_get _ (by omega))
+            obtain ⟨R, hm, hR⟩ := Dec.C01GenArith.gen_mul_64x64_to_128MACH C3.w0 (UInt64.ofNat (10 ^ scale))
+            take_call hm
+            head_step
+            have hp : (UInt64.ofNat (10 ^ scale)).toNat = 10 ^ scale := by
+              rw [UInt64.toNat_ofNat', Nat.mod_eq_of_lt]
+              have : (10:Nat)^scale ≤ 10^19 := Nat.pow_le_pow_right (by decide) cs
+              omega
+            have hRv : v128 R = c3 * 10 ^ scale := by rw [← w3.1, ← hp]; exact hR
+            have := pz_finish R ze zs SC scale E3 s3 hzs hze hE3 hSC hsE (by rw [hRv]; exact hM34) f
+            rw [hRv] at this
+            exact this
+          · take_neg
+            · rw [i32_le_lit _ _ hSC 19 19 (by decide)]; simpa using cs
+            have hs20 : (SC - 20).toInt = (scale - 20 : Nat) := i32_sub_small _ _ 20 hSC (by omega) 20 (by decide) (by omega)
+            take_call (show tbl128 Dec.Gen.BID_TEN2K128 (UInt64.ofInt (toI (SC - 20))) = .ok (mk128 (10 ^ (scale - 20 + 20))) by
+              rw [idx_of _ _ hs20]; exact ten2k128_get _ (by omega))
+            have hT : (mk128 (10 ^ (scale - 20 + 20))).toNat' = 10 ^ scale := by
+              rw [show scale - 20 + 20 = scale from by omega]
+              apply mk128_val
+              have : (10:Nat)^scale ≤ 10^33 := Nat.pow_le_pow_right (by decide) (by omega)
+              omega
+            obtain ⟨R, hm, hR⟩ := Dec.C01GenArith.gen_mul_128x64_to_128_exact C3.w0 (mk128 (10 ^ (scale - 20 + 20))) (by
+              rw [hT, w3.1]; omega)
+            take_call hm
+            head_step
+            have hRv : v128 R = c3 * 10 ^ scale := by rw [← w3.1, ← hT]; exact hR
+            have := pz_finish R ze zs SC scale E3 s3 hzs hze hE3 hSC hsE (by rw [hRv]; exact hM34) f
+            rw [hRv] at this
+            exact this
+        · take_neg
+          · rw [i32_le_lit _ _ hq3 19 19 (by decide)]; simpa using cq
+          take_call (show tbl64 Dec.Gen.BID_TEN2K64 (UInt64.ofInt (toI SC)) = .ok (UInt64.ofNat (10 ^ scale)) by
+            rw [idx_of _ _ hSC]; exact ten2k64_get _ (by omega))
+          have hp : (UInt64.ofNat (10 ^ scale)).toNat = 10 ^ scale := by
+            rw [UInt64.toNat_ofNat', Nat.mod_eq_of_lt]
+            have : (10:Nat)^scale ≤ 10^14 := Nat.pow_le_pow_right (by decide) (by omega)
+            omega
+          obtain ⟨R, hm, hR⟩ := Dec.C01GenArith.gen_mul_128x64_to_128_exact (UInt64.ofNat (10 ^ scale)) C3 (by
+            rw [hp]; show 10 ^ scale * v128 C3 < _; rw [← hc3, Nat.mul_comm]; omega)
+          take_call hm
+          head_step
+          have hRv : v128 R = c3 * 10 ^ scale := by rw [Nat.mul_comm, ← hp, hc3]; exact hR
+          have := pz_finish R ze zs SC scale E3 s3 hzs hze hE3 hSC hsE (by rw [hRv]; exact hM34) f
+          rw [hRv] at this
+          exact this
+
+
+
+/-- the digit count stage on any coefficient below `2^113` hands on SOME count and scratch value -/
+theorem digitsK_any {α : Type} (C1 : U128) (tmp : F64U) (k : Int32 → F64U → Except String α) (h1 : v128 C1 < 2^113) :
+    ∃ (q : Int32) (tmp' : F64U), digitsK C1 tmp k = k q tmp' := by
+  by_cases hz : isZ C1 = true
+  · exact ⟨0, tmp, digitsK_zero C1 tmp k hz⟩
+  · have h0 : 0 < v128 C1 := by
+      rw [isZ_of_val] at hz
+      have : v128 C1 ≠ 0 := by simpa using hz
+      omega
+    obtain ⟨q, t, h, -⟩ := digitsK_spec C1 tmp k h0 h1
+    exact ⟨q, t, h⟩
+
+/-- a finite operand with a non-zero coefficient is canonical: its words are the three fields side by side -/
+theorem canon_words (z : U128) (s : Bool) (c : Nat) (e : Int) (hD : dOf z = .fin s c e) (hc : c ≠ 0) :
+    z.w0 = (unpC z).2.w0 ∧ z.w1 = (unpC z).2.w1 ||| ((z.w1 &&& c_MASK_SIGN) ||| (unpC z).1) := by
+  have hl := z.w0.toNat_lt
+  have hh := z.w1.toNat_lt
+  have hD' := hD
+  rw [dOf_W] at hD'
+  rcases decodeW_cases z.w1.toNat z.w0.toNat with ⟨h1, h2, hd⟩ | ⟨h1, h2, h3, hd⟩ | ⟨h1, h2, h3, hd⟩ | ⟨h1, h2, hd⟩ |
+    ⟨h1, h2, h3, hd⟩ | ⟨h1, h2, h3, hd⟩ <;> rw [hd] at hD' <;> cases hD'
+  · exact absurd rfl hc
+  · have ts : ¬ tS z = true := by rw [tS_eq]; simpa using h2
+    have tb : ¬ tB z = true := by rw [tB_eq]; simp only [decide_eq_true_eq]; omega
+    rw [unpC_c ts tb]
+    refine ⟨rfl, ?_⟩
+    show z.w1 = (z.w1 &&& c_MASK_COEFF) ||| ((z.w1 &&& c_MASK_SIGN) ||| (z.w1 &&& c_MASK_EXP))
+    rw [← UInt64.toNat_inj]
+    have hco : (z.w1 &&& c_MASK_COEFF).toNat = (z.w1.toNat / 2^0 % 2^49) * 2^0 := toNat_and_field _ c_MASK_COEFF 49 0 (by decide)
+    have hex : (z.w1 &&& c_MASK_EXP).toNat = (z.w1.toNat / 2^49 % 2^14) * 2^49 := toNat_and_field _ c_MASK_EXP 14 49 (by decide)
+    have hsg : (z.w1 &&& c_MASK_SIGN).toNat = (z.w1.toNat / 2^63 % 2^1) * 2^63 := toNat_and_field _ c_MASK_SIGN 1 63 (by decide)
+    have hsw : z.w1 &&& c_MASK_SIGN = sgnW (decide (z.w1.toNat / 2^63 % 2 = 1)) := by
+      rw [← UInt64.toNat_inj, hsg, Dec.C02GenFmaSwap.sgnW_toNat]
+      by_cases hb : z.w1.toNat / 2^63 % 2 = 1
+      · rw [decide_eq_true hb]; simp only [if_true]; omega
+      · rw [decide_eq_false hb]; simp only [Bool.false_eq_true, if_false]; omega
+    rw [pack_fields _ _ _ (by rw [hco]; omega) _ hsw (z.w1.toNat / 2^49 % 2^14) (Nat.mod_lt _ (by decide)) hex, hco]
+    by_cases hb : z.w1.toNat / 2^63 % 2 = 1
+    · simp only [hb, decide_true, if_true]; omega
+    · simp only [hb, decide_false, Bool.false_eq_true, if_false]; omega
+  · exact absurd rfl hc
+
+set_option maxHeartbeats 1000000 in
+/-- **zero product, non-zero addend** (three finite operands; `x` or `y` a zero or a non-canonical pattern): the front end
+answers, and the answer is `fmaD`: the addend, its coefficient padded with zeros towards the preferred exponent
+`min (e1 + e2, e3)` as far as 34 digits and the least exponent allow; no flag, whatever the rounding mode -/
+theorem front_prod_zero (p1 p2 p3 p4 : Bool) (x y z : U128) (m : RoundingMode) (f : UInt32)
+    {s1 s2 s3 : Bool} {c1 c2 c3 : Nat} {e1 e2 e3 : Int}
+    (hx : dOf x = .fin s1 c1 e1) (hy : dOf y = .fin s2 c2 e2) (hz : dOf z = .fin s3 c3 e3) (h12 : c1 * c2 = 0) (h3 : c3 ≠ 0) :
+    bid128_ext_fma p1 p2 p3 p4 x y z m f =
+      .ok (ofBits (encode (fmaD (Dec.C02GenCorrection.modeOf m) false (dOf x) (dOf y) (dOf z)).1), false, false, false, false,
+        f ||| UInt32.ofNat (fmaD (Dec.C02GenCorrection.modeOf m) false (dOf x) (dOf y) (dOf z)).2) := by
+  obtain ⟨nx, sx, ex, vx, lx, rx1, rx2⟩ := fin_unpack x s1 c1 e1 hx
+  obtain ⟨ny, sy, ey, vy, ly, ry1, ry2⟩ := fin_unpack y s2 c2 e2 hy
+  obtain ⟨nz, sz, ez, vz, lz, rz1, rz2⟩ := fin_unpack z s3 c3 e3 hz
+  have z3 : isZ (unpC z).2 = false := by rw [isZ_of_val, vz]; simpa using h3
+  have z12 : (isZ (unpC x).2 || isZ (unpC y).2) = true := by
+    rw [isZ_of_val, isZ_of_val, vx, vy]
+    rcases Nat.mul_eq_zero.1 h12 with h | h <;> simp [h]
+  have h113 : (10:Nat)^34 < 2^113 := by norm_num
+  have c3pos : 0 < c3 := Nat.pos_of_ne_zero h3
+  obtain ⟨scale, hscale⟩ : ∃ scale : Nat, scale = if e3 ≤ e1 + e2 then 0 else
+      min (34 - ndigits c3) (e3 - max (e1 + e2) (-6176)).toNat := ⟨_, rfl⟩
+  have hmodel : fmaD (Dec.C02GenCorrection.modeOf m) false (dOf x) (dOf y) (dOf z) =
+      (.fin s3 (c3 * 10 ^ scale) (e3 - scale), 0) := by
+    rw [hx, hy, hz]
+    show addFin _ (s1 != s2) (c1 * c2) (e1 + e2) s3 c3 e3 _ false = _
+    rw [h12]
+    exact fmaD_prod_zero _ _ s3 (e1 + e2) c3 e3 c3pos lz rz1 rz2 scale hscale
+  rw [hmodel, ext_fma_shape]
+  unfold frontK
+  rw [nanK_skip x y z f _ (by rw [hx]; rfl) (by rw [hy]; rfl) (by rw [hz]; rfl),
+    unpackK_eval x, unpackK_eval y, unpackK_eval z, if_pos nx, if_pos nx, if_pos ny, if_pos ny, if_pos nz, if_pos nz,
+    infK_skip x y z _ _ _ _ _ f _ nx ny nz,
+    zeroK_skip _ _ _ _ _ _ _ _ m f _ (by rw [z3]; simp)]
+  generalize hk1 : (fun (q1 : Int32) (tmp : F64U) => digitsK (unpC y).2 tmp _) = K1
+  obtain ⟨q1, t1, hd1⟩ := digitsK_any (unpC x).2 default K1 (by rw [vx]; omega)
+  rw [hd1]; subst hk1
+  simp only []
+  generalize hk2 : (fun (q2 : Int32) (tmp : F64U) => digitsK (unpC z).2 tmp _) = K2
+  obtain ⟨q2, t2, hd2⟩ := digitsK_any (unpC y).2 t1 K2 (by rw [vy]; omega)
+  rw [hd2]; subst hk2
+  simp only []
+  generalize hk3 : (fun (q3 : Int32) (tmp : F64U) => prodZeroK z _ _ _ _ _ _ q3 f _) = K3
+  obtain ⟨q3, t3, hd3, hq3⟩ := digitsK_spec (unpC z).2 t2 K3 (by rw [vz]; omega) (by rw [vz]; omega)
+  rw [hd3]; subst hk3
+  simp only []
+  -- the stage
+  have hpe := pExpW_val (unpC x).1 (unpC y).1 _ _ ex ey (by omega) (by omega)
+  obtain ⟨PE, hPE⟩ : ∃ PE : Nat, PE = (max (e1 + e2 + 6176) 0).toNat := ⟨_, rfl⟩
+  have hpe' : (pExpW (unpC x).1 (unpC y).1).toNat = PE * 2^49 := by
+    rw [hpe]
+    by_cases hneg : ((e1 + 6176).toNat : Int) + (e2 + 6176).toNat - 12352 < -6176
+    · rw [if_pos hneg]; have : PE = 0 := by omega
+      rw [this, Nat.zero_mul]
+    · rw [if_neg hneg]; have : (e1 + 6176).toNat + (e2 + 6176).toNat - 6176 = PE := by omega
+      rw [this]
+  obtain ⟨w0, w1⟩ := canon_words z s3 c3 e3 hz h3
+  rw [prodZeroK_eval z _ _ (unpC z).2 (unpC z).1 _ _ q3 f _ z12 (e3 + 6176).toNat PE ez hpe' (by omega) (by omega)
+    (by rw [vz]; exact c3pos) (by rw [vz]; exact lz) hq3 s3 sz ⟨w0, w1⟩ scale (by
+      rw [hscale, vz]
+      by_cases hle : e3 ≤ e1 + e2
+      · rw [if_pos hle, if_pos (by omega)]
+      · rw [if_neg hle]
+        by_cases hz0 : (e3 + 6176).toNat ≤ PE
+        · rw [if_pos hz0]
+          have : (e3 - max (e1 + e2) (-6176)).toNat = 0 := by omega
+          rw [this]; simp
+        · rw [if_neg hz0]
+          congr 1
+          omega)]
+  rw [vz, show f ||| UInt32.ofNat (0 : Flags) = f from UInt32.or_zero,
+    show (((e3 + 6176).toNat : Nat) : Int) - 6176 - scale = e3 - scale from by omega]
+
+
+/-! ## 11. Together, and examples -/
+
+/-- **everything the front end answers itself, for operands that are not NaNs** (NaNs: `C12GenNaN.ext_fma_nan`): an
+infinite operand, or a zero (or non-canonical) factor — the result is `fmaD`'s datum canonically encoded, the four
+indicators are `false`, `fmaD`'s flags are OR-ed into the status word -/
+theorem front_answers (p1 p2 p3 p4 : Bool) (x y z : U128) (m : RoundingMode) (f : UInt32)
+    (hx : (dOf x).isNaN = false) (hy : (dOf y).isNaN = false) (hz : (dOf z).isNaN = false)
+    (h : ((dOf x).isInf || (dOf y).isInf || (dOf z).isInf) = true ∨ ((dOf x).isZero || (dOf y).isZero) = true) :
+    bid128_ext_fma p1 p2 p3 p4 x y z m f =
+      .ok (ofBits (encode (fmaD (Dec.C02GenCorrection.modeOf m) false (dOf x) (dOf y) (dOf z)).1), false, false, false, false,
+        f ||| UInt32.ofNat (fmaD (Dec.C02GenCorrection.modeOf m) false (dOf x) (dOf y) (dOf z)).2) := by
+  by_cases hi : ((dOf x).isInf || (dOf y).isInf || (dOf z).isInf) = true
+  · exact front_inf p1 p2 p3 p4 x y z m f hx hy hz hi
+  · have hz0 : ((dOf x).isZero || (dOf y).isZero) = true := by
+      rcases h with h | h
+      · exact absurd h hi
+      · exact h
+    simp only [Bool.or_eq_true, not_or, Bool.not_eq_true] at hi
+    obtain ⟨⟨ix, iy⟩, iz⟩ := hi
+    cases hdx : dOf x with
+    | nan _ _ _ => rw [hdx] at hx; exact Bool.noConfusion hx
+    | inf _ => rw [hdx] at ix; exact Bool.noConfusion ix
+    | fin s1 c1 e1 =>
+      cases hdy : dOf y with
+      | nan _ _ _ => rw [hdy] at hy; exact Bool.noConfusion hy
+      | inf _ => rw [hdy] at iy; exact Bool.noConfusion iy
+      | fin s2 c2 e2 =>
+        cases hdz : dOf z with
+        | nan _ _ _ => rw [hdz] at hz; exact Bool.noConfusion hz
+        | inf _ => rw [hdz] at iz; exact Bool.noConfusion iz
+        | fin s3 c3 e3 =>
+          have h12 : c1 * c2 = 0 := by
+            rw [hdx, hdy] at hz0
+            simp only [Datum.isZero, Bool.or_eq_true, beq_iff_eq] at hz0
+            rcases hz0 with h | h <;> rw [h] <;> simp
+          rw [← hdx, ← hdy, ← hdz]
+          by_cases h3 : c3 = 0
+          · subst h3; exact front_zero_zero p1 p2 p3 p4 x y z m f hdx hdy hdz h12
+          · exact front_prod_zero p1 p2 p3 p4 x y z m f hdx hdy hdz h12 h3
+
+-- Inf·0 + 1: invalid; Inf·2 + (−Inf): invalid; (−Inf)·(−2) + Inf = +Inf (status word 0x20 on entry)
+example : bid128_ext_fma false false false false ⟨0, 0x7800000000000000⟩ ⟨0, 0x3040000000000000⟩ ⟨1, 0x3040000000000000⟩
+    .NearestEven 0x20 = .ok (⟨0, 0x7c00000000000000⟩, false, false, false, false, 0x21) := by decide +kernel
+example : bid128_ext_fma false false false false ⟨0, 0x7800000000000000⟩ ⟨2, 0x3040000000000000⟩ ⟨0, 0xf800000000000000⟩
+    .NearestEven 0x20 = .ok (⟨0, 0x7c00000000000000⟩, false, false, false, false, 0x21) := by decide +kernel
+example : bid128_ext_fma false false false false ⟨0, 0xf800000000000000⟩ ⟨2, 0xb040000000000000⟩ ⟨0, 0x7800000000000000⟩
+    .NearestEven 0x20 = .ok (⟨0, 0x7800000000000000⟩, false, false, false, false, 0x20) := by decide +kernel
+-- 0·5 + (−0) = +0 (nearest); (−0)·5 + (+0E+2) toward −∞ = −0E+0
+example : bid128_ext_fma false false false false ⟨0, 0x3040000000000000⟩ ⟨5, 0x3040000000000000⟩ ⟨0, 0xb040000000000000⟩
+    .NearestEven 0x20 = .ok (⟨0, 0x3040000000000000⟩, false, false, false, false, 0x20) := by decide +kernel
+example : bid128_ext_fma false false false false ⟨0, 0xb040000000000000⟩ ⟨5, 0x3040000000000000⟩ ⟨0, 0x3044000000000000⟩
+    .Downward 0x20 = .ok (⟨0, 0xb040000000000000⟩, false, false, false, false, 0x20) := by decide +kernel
+-- 0E+10·5 + 7E+3 = 7E+3 (the addend's exponent is the smaller one); 0·5E−3 + 123 = 123000E−3 (padded to the product's exponent);
+-- a non-canonical x (coefficient 10^34) is a zero: the same; 0E−6176·0E−6176 + 1E−6175 = 10E−6176 (clamped at the least exponent)
+example : bid128_ext_fma false false false false ⟨0, 0x3054000000000000⟩ ⟨5, 0x3040000000000000⟩ ⟨7, 0x3046000000000000⟩
+    .NearestEven 0x20 = .ok (⟨7, 0x3046000000000000⟩, false, false, false, false, 0x20) := by decide +kernel
+example : bid128_ext_fma false false false false ⟨0, 0x3040000000000000⟩ ⟨5, 0x303a000000000000⟩ ⟨123, 0x3040000000000000⟩
+    .Upward 0x20 = .ok (⟨123000, 0x303a000000000000⟩, false, false, false, false, 0x20) := by decide +kernel
+example : bid128_ext_fma false false false false ⟨0x378d8e6400000000, 0x3041ed09bead87c0⟩ ⟨5, 0x303a000000000000⟩
+    ⟨123, 0x3040000000000000⟩ .Upward 0x20 = .ok (⟨123000, 0x303a000000000000⟩, false, false, false, false, 0x20) := by
+  decide +kernel
+example : bid128_ext_fma false false false false ⟨0, 0⟩ ⟨0, 0⟩ ⟨1, 0x0002000000000000⟩ .NearestEven 0x20
+    = .ok (⟨10, 0⟩, false, false, false, false, 0x20) := by decide +kernel
+-- the model says the same (through `front_answers`)
+example : fmaD .rup false (dOf ⟨0, 0x3040000000000000⟩) (dOf ⟨5, 0x303a000000000000⟩) (dOf ⟨123, 0x3040000000000000⟩)
+    = (.fin false 123000 (-3), 0) := by decide +kernel
+-- the hand-over on 2·3 + 4: the case loop is entered with C4 = 6, q4 = 1, q3 = 1, e3 = e4 = 0
+example : ∃ zs ps ze pe C3 C4 q3 q4 e3w e4w tmp,
+    Handover false false false 2 3 4 0 0 0 zs ps ze pe C3 C4 q3 q4 e3w e4w ∧
+    bid128_ext_fma false false false false ⟨2, 0x3040000000000000⟩ ⟨3, 0x3040000000000000⟩ ⟨4, 0x3040000000000000⟩ .NearestEven 0
+      = caseLoop false false false false .NearestEven 0 zs ps ze pe C3 C4 q3 q4 e3w e4w tmp :=
+  front_spec false false false false _ _ _ .NearestEven 0 (by decide +kernel) (by decide +kernel) (by decide +kernel)
+    (by decide) (by decide)
 
 end Dec.C02GenFmaFrontSpec
